@@ -109,9 +109,14 @@ def parseRe (j : Json) : Option (String × String × ReRes) :=
 
 def cfg : Cfg := Nuts.Facts.C12.cfg
 
+def showPath : Option Path → String
+  | none => "<unparsable>"
+  | some p => "$" ++ String.join (p.steps.map fun st => match st with | .key k => "." ++ k | .idx n => "[" ++ toString n ++ "]") ++ (if p.wild then "[*]" else "")
+
+def showLevel (l : Level) : String := l.id ++ ":" ++ l.fmt ++ ":" ++ showPath l.path
+
 def showMappings (ms : List Mapping) : String :=
-  "[" ++ String.intercalate "," (ms.map fun m =>
-    m.id ++ ":" ++ m.fmt ++ ":" ++ m.path ++ (match m.nested with | some (i, f, p) => ">" ++ i ++ ":" ++ f ++ ":" ++ p | none => "")) ++ "]"
+  "[" ++ String.intercalate "," (ms.map fun m => String.intercalate ">" ((m.top :: m.nested).map showLevel)) ++ "]"
 
 def showMatch (r : Res (List Mapping × List Cred)) : String :=
   match r with
@@ -119,7 +124,59 @@ def showMatch (r : Res (List Mapping × List Cred)) : String :=
   | .err e => "match err:" ++ e
   | .panic s => "match panic:" ++ s
 
-def walletOf (st : St) (j : Json) (k : String) : List Cred := (jNats j k).filterMap (fun i => st.creds[i]?)
+def walletOf (st : St) (j : Json) : List Cred := (j.getArr?.toOption.getD #[]).toList.filterMap (fun x => x.getNat?.toOption.bind (fun i => st.creds[i]?))
+
+partial def parseLevels (j : Json) : List Level :=
+  let l : Level := { id := jStr j "id", fmt := jStr j "fmt", path := parsePath (jStr j "path") }
+  if jHas j "nested" then l :: parseLevels (jObj j "nested") else [l]
+
+def parseMapping (j : Json) : Mapping :=
+  match parseLevels j with
+  | t :: rest => { top := t, nested := rest }
+  | [] => { top := { id := "", fmt := "", path := none } }
+
+def showBuild (r : Res (List Mapping × List Cred)) : String :=
+  match r with
+  | .ok (ms, vcs) => "build ok vcs=[" ++ String.intercalate "," (vcs.map (·.name)) ++ "] map=" ++ showMappings ms
+  | .err e => "build err:" ++ e
+  | .panic s => "build panic:" ++ s
+
+/-- navigate `at` (object keys / array indexes) from a root -/
+def navigate : List Json → J → Option J
+  | [], v => some v
+  | .str k :: rest, .obj kv => (objGet kv k).bind (navigate rest)
+  | .num n :: rest, .arr l => (l[n.mantissa.toNat]?).bind (navigate rest)
+  | _, _ => none
+
+def parsePresCred (st : St) (j : Json) : Cred :=
+  if jHas j "full" then parseCred (jObj j "full")
+  else
+    match st.creds.find? (fun c => c.name == jStr j "ref") with
+    | some c => { c with raw := jStr j "raw" }
+    | none => { name := "unknown-ref:" ++ jStr j "ref" }
+
+/-- the go-did decoding contract as a table keyed by (rendered value, format) -/
+def decoderOf (tbl : List (String × String × Decoded)) : Decoder := fun v f =>
+  let k := renderJ v
+  (tbl.find? (fun e => e.2.1 == f && e.1 == k)).map (·.2.2)
+
+def buildDecodeTable (env : J) (maps : Array J) (entries : List Json) : List (String × String × Decoded) :=
+  entries.filterMap fun e =>
+    let root := jNat e "root"
+    let rootV : Option J := if root == 0 then some env else maps[root]?
+    match rootV.bind (navigate (jArr e "at")) with
+    | none => none
+    | some v =>
+      let mi := jNat e "map"
+      let asMap : Option J := if mi == 0 then none else maps[mi]?
+      let d : Decoded :=
+        if jStr e "kind" == "vc" then { cred := some { name := jStr e "cred", raw := jStr e "raw" }, asMap := asMap }
+        else { cred := none, asMap := asMap }
+      some (renderJ v, jStr e "fmt", d)
+
+def showAssoc (l : List (String × String)) : String :=
+  let sorted := (l.toArray.qsort (fun a b => a.1 < b.1)).toList
+  "{" ++ String.intercalate "," (sorted.map fun (k, v) => k ++ "=" ++ v) ++ "}"
 
 def step (st : St) (j : Json) : St × List String :=
   match jStr j "op" with
@@ -129,7 +186,33 @@ def step (st : St) (j : Json) : St × List String :=
     let st' : St := { pd := pd, creds := ((jArr j "creds").map parseCred).toArray, re := (jArr j "re").filterMap parseRe, live := true }
     (st', [s!"case req={credentialsRequired pd}"])
   | "match" =>
-    (st, [showMatch (pdMatch cfg (reOf st.re) st.pd (walletOf st j "wallet"))])
+    (st, [showMatch (pdMatch cfg (reOf st.re) st.pd (walletOf st (jObj j "wallet")))])
+  | "build" =>
+    (st, [showBuild (build cfg (reOf st.re) st.pd ((jArr j "wallets").map (walletOf st)))])
+  | "validate" =>
+    if jBool j "envErr" then (st, ["validate envelope-err"]) else
+    let envJ := toJ (jObj j "env")
+    let maps := ((jArr j "maps").map toJ).toArray
+    let env : Envelope := { asInterface := envJ,
+                            presentations := (jArr j "pres").map (fun p => (p.getArr?.toOption.getD #[]).toList.map (parsePresCred st)),
+                            signerOK := (jArr j "signer").map (fun b => b.getBool?.toOption.getD false) }
+    let decode := decoderOf (buildDecodeTable envJ maps (jArr j "decode"))
+    let sub := (jArr j "sub").map parseMapping
+    let line := match validate cfg (reOf st.re) decode st.pd env sub with
+      | .ok m => "validate ok " ++ showAssoc (m.map fun (k, c) => (k, c.name))
+      | .err e => "validate err:" ++ e
+      | .panic s => "validate panic:" ++ s
+    (st, [line])
+  | "fields" =>
+    let cm := (jArr j "credMap").filterMap fun e =>
+      match e with
+      | .arr #[.str id, .num n] => (st.creds[n.mantissa.toNat]?).map (fun c => (id, c))
+      | _ => none
+    let line := match resolveFields cfg (reOf st.re) st.pd [] cm with
+      | .ok vals => "fields ok " ++ showAssoc (vals.map fun (k, v) => (k, match v with | some x => renderJ x | none => "null"))
+      | .err e => "fields err:" ++ e
+      | .panic s => "fields panic:" ++ s
+    (st, [line])
   | o => (st, ["bad-op:" ++ o])
 
 end Nuts.Drv.C12
